@@ -30,7 +30,16 @@
    same worker (one worker = one Batch object), whose worker data has survived.  Nothing of the given-up batch
    may show up in a later request.
 
+   Routing family: every event has a routing value (`route`: "none" = the routing field is absent or empty,
+   else the value) that the sink must see next to the event -- kafka record topic (default_topic when none),
+   elasticsearch index name, splunk copied field, gelf host.  The kafka worker data keeps the kgo.Record
+   objects (`data.messages[i]`, here `slots`) from batch to batch; the code assigns Topic on every event.
+   The routing a sink sees is carried in the header cell of the framed unit.
+
    Mechanism switches for spec mutants (TRUE = mechanism present, as in the code):
+       M_TopicPerEvent  `data.messages[i].Topic = topic` for every event, topic computed from that event alone.
+                     FALSE = default topic only when the slot is first allocated, field topic only when
+                     non-empty and different: a topic-less event inherits the slot's topic of an earlier batch
        M_ReencodeAfterGiveUp  out() encodes the batch it is given on every call.  FALSE = an "encode once per
                      batch object" cache in the worker data (marker = the *Batch pointer), dropped on success
                      and on 400/413 but not when the retries run out
@@ -49,8 +58,11 @@ CONSTANTS MaxN1,           \* maximal batch size in single-batch cases
           MaxPatBatches,   \* cases with at most this many batches carry a 413 pattern (on one of their batches)
           Retry,           \* `retry` of the plugin: the RetriableBatcher gives up when numTries > Retry
           DeadQueueModes,  \* values of "a dead queue is configured" explored in the fault family
+          Routes,          \* routing values explored in the routing family, e.g. {"none", "a", "b"}
+          RouteKinds,      \* event kinds explored in the routing family
+          MaxRouteBatches, \* successive batches per routing-family case
           D14_SingleTooLargeAborts,
-          M_ResetBegin, M_ResetBuf, M_SkipParent, M_ReencodeAfterGiveUp
+          M_ResetBegin, M_ResetBuf, M_SkipParent, M_ReencodeAfterGiveUp, M_TopicPerEvent
 
 ASSUME MaxBatches \in 1..3
 
@@ -63,18 +75,19 @@ VARIABLES cs,        \* the case: [split, batches, pats, fail, dq]
           fi, ec,    \* ForEach position, eventsCount
           stack, rv, \* sendSplit call stack <<[l, r, st]>>, value being returned: none | ok | e413 | e5xx
           tries,     \* RetriableBatcher.Out: numTries
+          slots,     \* kafka data.messages: per slot the Topic left there (survives the batch)
           encoded,   \* (mutant only) worker data: "outBuf/begin were built for the Batch object in hand"
           reqs,      \* history: requests of the current batch <<[body, ok]>>
           hist       \* history: per finished batch [reqs, acked]
 
-vars == <<cs, k, pc, arr, blen, grown, begin, fi, ec, stack, rv, tries, encoded, reqs, hist>>
+vars == <<cs, k, pc, arr, blen, grown, begin, fi, ec, stack, rv, tries, slots, encoded, reqs, hist>>
 
 -----------------------------------------------------------------------------
 (* wire cells: an event of size class s is framed as one header cell and s document cells *)
-HCell(id)       == [id |-> id, part |-> "h", j |-> 0, of |-> 0]
-DCell(id, q, s) == [id |-> id, part |-> "d", j |-> q, of |-> s]
-Cells(e)        == <<HCell(e.id)>> \o [q \in 1..e.size |-> DCell(e.id, q, e.size)]
-PanicBody       == <<[id |-> -2, part |-> "panic", j |-> 0, of |-> 0]>>
+HCell(id, rt)   == [id |-> id, part |-> "h", j |-> 0, of |-> 0, rt |-> rt]     \* rt: the routing the sink sees
+DCell(id, q, s) == [id |-> id, part |-> "d", j |-> q, of |-> s, rt |-> ""]
+Cells(e, rt)    == <<HCell(e.id, rt)>> \o [q \in 1..e.size |-> DCell(e.id, q, e.size)]
+PanicBody       == <<[id |-> -2, part |-> "panic", j |-> 0, of |-> 0, rt |-> ""]>>
 BAD == -1
 
 (* abstraction function of the sink: body -> sequence of ids, BAD where the framing is broken *)
@@ -92,6 +105,7 @@ Parse(body)   == ParseFrom(body, 1)
 Range(s)      == {s[x] : x \in DOMAIN s}
 ParseOK(body) == BAD \notin Range(Parse(body))
 IdsIn(body)   == {body[x].id : x \in DOMAIN body}      \* what the sink's size limit looks at
+Routing(body) == LET hs == SelectSeq(body, LAMBDA c : c.part = "h") IN [x \in 1..Len(hs) |-> <<hs[x].id, hs[x].rt>>]
 
 RECURSIVE Flatten(_)
 Flatten(ss) == IF ss = <<>> THEN <<>> ELSE Head(ss) \o Flatten(Tail(ss))
@@ -104,6 +118,8 @@ Rejects(pat, S)  == \E m \in pat : m \subseteq S
 Deliverable(b, pat) == SelectSeq(Payload(b), LAMBDA id : ~Rejects(pat, {id}))
 \* what the accepted requests of batch x must carry: nothing if the sink fails every attempt (configured give-up)
 Exp(x) == IF cs.fail[x] THEN <<>> ELSE Deliverable(cs.batches[x], cs.pats[x])
+\* the routing an event must be given: its own value, the sink's default when it has none
+OwnRoute(e)      == IF e.route = "none" THEN "default" ELSE e.route
 HasIterable(b)   == \E x \in DOMAIN b : b[x].kind # "parent"       \* Batch.hasIterableEvents
 Accepted(rs)     == Flatten([x \in 1..Len(SelectSeq(rs, LAMBDA r : r.ok)) |->
                                Parse(SelectSeq(rs, LAMBDA r : r.ok)[x].body)])
@@ -116,15 +132,22 @@ AC == [m \in 0..(IF MaxN1 > MaxN THEN MaxN1 ELSE MaxN) |->
 PatsFor(b) == LET pl == Payload(b) IN {{{pl[p] : p \in s} : s \in a} : a \in AC[Len(pl)]}
 
 Shapes(n) == {f \in [1..n -> Kinds \X SizeClasses] : Cardinality({x \in 1..n : f[x][2] > 1}) <= MaxBig}
-Batches(bi, n) == {[x \in 1..n |-> [id |-> 10 * bi + x, kind |-> f[x][1], size |-> f[x][2]]] : f \in Shapes(n)}
+Batches(bi, n) == {[x \in 1..n |-> [id |-> 10 * bi + x, kind |-> f[x][1], size |-> f[x][2], route |-> "any"]] : f \in Shapes(n)}
+\* routing family: small events, every combination of routing values (and kinds: a parent shifts the slots)
+RBatches(bi, n) == {[x \in 1..n |-> [id |-> 10 * bi + x, kind |-> f[x][1], size |-> 1, route |-> f[x][2]]] :
+                      f \in [1..n -> RouteKinds \X Routes]}
+RBatchSeqs(ns) ==
+  IF Len(ns) = 1 THEN {<<b1>> : b1 \in RBatches(1, ns[1])}
+  ELSE IF Len(ns) = 2 THEN {<<b1, b2>> : b1 \in RBatches(1, ns[1]), b2 \in RBatches(2, ns[2])}
+  ELSE {<<b1, b2, b3>> : b1 \in RBatches(1, ns[1]), b2 \in RBatches(2, ns[2]), b3 \in RBatches(3, ns[3])}
 ShrinkSeqs(nb) == {s \in [1..nb -> 1..(IF nb = 1 THEN MaxN1 ELSE MaxN)] : \A x \in 1..(nb - 1) : s[x] > s[x + 1]}
 BatchSeqs(ns) ==
   IF Len(ns) = 1 THEN {<<b1>> : b1 \in Batches(1, ns[1])}
   ELSE IF Len(ns) = 2 THEN {<<b1, b2>> : b1 \in Batches(1, ns[1]), b2 \in Batches(2, ns[2])}
   ELSE {<<b1, b2, b3>> : b1 \in Batches(1, ns[1]), b2 \in Batches(2, ns[2]), b3 \in Batches(3, ns[3])}
 
-Init ==
-  /\ \E split \in SplitModes : \E nb \in 1..MaxBatches : \E ns \in ShrinkSeqs(nb) : \E bs \in BatchSeqs(ns) :
+CaseMain ==
+  \E split \in SplitModes : \E nb \in 1..MaxBatches : \E ns \in ShrinkSeqs(nb) : \E bs \in BatchSeqs(ns) :
        \E sb \in (IF split /\ nb <= MaxPatBatches THEN 1..nb ELSE {0}) :
          \E pt \in (IF sb = 0 THEN {{}} ELSE PatsFor(bs[sb])) :
           \* fault family: no 413 pattern, no big event; one batch (fb) fails on every attempt
@@ -132,10 +155,19 @@ Init ==
            \E dq \in (IF fb = 0 THEN {FALSE} ELSE DeadQueueModes) :
              cs = [split |-> split, batches |-> bs, pats |-> [x \in 1..nb |-> IF x = sb THEN pt ELSE {}],
                    fail |-> [x \in 1..nb |-> x = fb], dq |-> dq]
+
+\* routing family: no split, no 413, no fault; <= MaxRouteBatches shrinking batches, all routing combinations
+CaseRouting ==
+  \E nb \in 1..MaxRouteBatches : \E ns \in ShrinkSeqs(nb) : \E bs \in RBatchSeqs(ns) :
+     cs = [split |-> FALSE, batches |-> bs, pats |-> [x \in 1..nb |-> {}],
+           fail |-> [x \in 1..nb |-> FALSE], dq |-> FALSE]
+
+Init ==
+  /\ (CaseMain \/ CaseRouting)
   /\ k = 0 /\ pc = "idle"
   /\ arr = <<>> /\ blen = 0 /\ grown = FALSE /\ begin = <<>>
   /\ fi = 0 /\ ec = 0 /\ stack = <<>> /\ rv = "none" /\ reqs = <<>> /\ hist = <<>>
-  /\ tries = 0 /\ encoded = FALSE
+  /\ tries = 0 /\ encoded = FALSE /\ slots = <<>>
 
 Cur == cs.batches[k]
 Pat == cs.pats[k]
@@ -156,7 +188,7 @@ Take ==
        THEN pc' = "prologue" /\ hist' = hist
        ELSE /\ hist' = Append(hist, [reqs |-> <<>>, acked |-> TRUE, gaveup |-> FALSE])   \* commitBatch without out()
             /\ pc' = IF k + 1 < Len(cs.batches) THEN "idle" ELSE "done"
-  /\ UNCHANGED <<cs, arr, blen, grown, begin, fi, ec, stack, rv, encoded>>
+  /\ UNCHANGED <<cs, arr, blen, grown, begin, fi, ec, stack, rv, slots, encoded>>
 
 (* out(): cap rule; eventsCount := 0; begin = begin[:0]; outBuf = outBuf[:0] *)
 Prologue ==
@@ -174,21 +206,26 @@ Prologue ==
             /\ begin' = IF M_ResetBegin THEN <<>> ELSE begin
             /\ fi' = 1 /\ ec' = 0
             /\ pc' = "foreach" /\ stack' = stack
-  /\ UNCHANGED <<cs, k, rv, tries, encoded, reqs, hist>>
+  /\ UNCHANGED <<cs, k, rv, tries, slots, encoded, reqs, hist>>
 
 (* one iteration of batch.ForEach(func(event){ eventsCount++; begin = append(begin, len(outBuf)); appendEvent }) *)
 ForEach ==
   /\ pc = "foreach"
-  /\ IF fi > Len(Cur) THEN pc' = "close" /\ UNCHANGED <<arr, blen, grown, begin, fi, ec>>
+  /\ IF fi > Len(Cur) THEN pc' = "close" /\ UNCHANGED <<arr, blen, grown, begin, fi, ec, slots>>
      ELSE LET e == Cur[fi] IN
           /\ fi' = fi + 1 /\ pc' = "foreach"
           /\ IF e.kind = "parent" /\ M_SkipParent
-               THEN UNCHANGED <<arr, blen, grown, begin, ec>>
-               ELSE /\ ec' = ec + 1
-                    /\ begin' = Append(begin, blen)
-                    /\ arr' = BufAppend(arr, blen, Cells(e))
-                    /\ blen' = blen + Len(Cells(e))
-                    /\ grown' = (grown \/ e.size > 1)
+               THEN UNCHANGED <<arr, blen, grown, begin, ec, slots>>
+               ELSE LET i   == ec + 1                                  \* kafka: data.messages[i]
+                        old == IF i <= Len(slots) THEN slots[i] ELSE "default"   \* first allocation: DefaultTopic
+                        rt  == IF M_TopicPerEvent THEN OwnRoute(e)
+                               ELSE IF e.route # "none" /\ e.route # old THEN e.route ELSE old
+                    IN /\ ec' = i
+                       /\ slots' = [x \in 1..(IF i > Len(slots) THEN i ELSE Len(slots)) |-> IF x = i THEN rt ELSE slots[x]]
+                       /\ begin' = Append(begin, blen)
+                       /\ arr' = BufAppend(arr, blen, Cells(e, rt))
+                       /\ blen' = blen + Len(Cells(e, rt))
+                       /\ grown' = (grown \/ e.size > 1)
   /\ UNCHANGED <<cs, k, stack, rv, tries, encoded, reqs, hist>>
 
 (* begin = append(begin, len(outBuf)); then sendSplit(0, eventsCount, begin, outBuf) or send(outBuf) *)
@@ -198,7 +235,7 @@ Close ==
   /\ IF cs.split THEN stack' = <<[l |-> 0, r |-> ec, st |-> "call"]>> /\ pc' = "split"
                  ELSE stack' = <<>> /\ pc' = "send"
   /\ encoded' = ~M_ReencodeAfterGiveUp                   \* mutant: data.encoded = batch
-  /\ UNCHANGED <<cs, k, arr, blen, grown, fi, ec, rv, tries, reqs, hist>>
+  /\ UNCHANGED <<cs, k, arr, blen, grown, fi, ec, rv, tries, slots, reqs, hist>>
 
 \* the sink: 5xx for every request of a failing batch, else 413 by the pattern, else 200
 Status(body) == IF cs.fail[k] THEN 500 ELSE IF Rejects(Pat, IdsIn(body)) THEN 413 ELSE 200
@@ -211,7 +248,7 @@ Send ==
      IN /\ reqs' = Append(reqs, [body |-> body, ok |-> st = 200, st |-> st])
         /\ rv' = IF st = 200 THEN "ok" ELSE IF st = 413 THEN "e413" ELSE "e5xx"
   /\ pc' = "outret"
-  /\ UNCHANGED <<cs, k, arr, blen, grown, begin, fi, ec, stack, tries, encoded, hist>>
+  /\ UNCHANGED <<cs, k, arr, blen, grown, begin, fi, ec, stack, tries, slots, encoded, hist>>
 
 Top == stack[Len(stack)]
 Pop == SubSeq(stack, 1, Len(stack) - 1)
@@ -237,7 +274,7 @@ SplitCall ==
                          /\ stack' = Append(Append(Pop, [l |-> l, r |-> r, st |-> "afterLeft"]),
                                             [l |-> l, r |-> (l + r) \div 2, st |-> "call"])
                          /\ rv' = "none" /\ pc' = "split"
-  /\ UNCHANGED <<cs, k, arr, blen, grown, begin, fi, ec, tries, encoded, hist>>
+  /\ UNCHANGED <<cs, k, arr, blen, grown, begin, fi, ec, tries, slots, encoded, hist>>
 
 (* a sendSplit call returned rv to its caller *)
 SplitRet ==
@@ -248,7 +285,7 @@ SplitRet ==
        ELSE \* return p.sendSplit(middle, right, begin, data)
             /\ stack' = Append(Pop, [l |-> (Top.l + Top.r) \div 2, r |-> Top.r, st |-> "call"])
             /\ pc' = "split" /\ rv' = "none"
-  /\ UNCHANGED <<cs, k, arr, blen, grown, begin, fi, ec, tries, encoded, reqs, hist>>
+  /\ UNCHANGED <<cs, k, arr, blen, grown, begin, fi, ec, tries, slots, encoded, reqs, hist>>
 
 (* tail of out(): 413 (and 400) are "non-retryable": logged, `return nil`; success: `return nil` -- the
    RetriableBatcher sees nil and the batch is committed.  Any other failure: `return err`. *)
@@ -259,7 +296,7 @@ OutReturn ==
        ELSE /\ hist' = Append(hist, [reqs |-> reqs, acked |-> TRUE, gaveup |-> FALSE])
             /\ encoded' = FALSE                                          \* mutant: data.encoded = nil
             /\ pc' = IF k < Len(cs.batches) THEN "idle" ELSE "done"
-  /\ UNCHANGED <<cs, k, arr, blen, grown, begin, fi, ec, stack, rv, tries, reqs>>
+  /\ UNCHANGED <<cs, k, arr, blen, grown, begin, fi, ec, stack, rv, tries, slots, reqs>>
 
 (* RetriableBatcher.Out after outFn returned an error: give up when numTries > AttemptNum -- onRetryError
    (Router.Fail per event; with a dead queue batch.reset()), return; Batcher.work then commits the batch and
@@ -271,7 +308,7 @@ RetryOrGiveUp ==
             /\ pc' = IF k < Len(cs.batches) THEN "idle" ELSE "done"
             /\ tries' = tries
        ELSE tries' = tries + 1 /\ pc' = "prologue" /\ hist' = hist
-  /\ UNCHANGED <<cs, k, arr, blen, grown, begin, fi, ec, stack, rv, encoded, reqs>>
+  /\ UNCHANGED <<cs, k, arr, blen, grown, begin, fi, ec, stack, rv, slots, encoded, reqs>>
 
 Next == Take \/ Prologue \/ ForEach \/ Close \/ Send \/ SplitCall \/ SplitRet \/ OutReturn \/ RetryOrGiveUp
 Spec == Init /\ [][Next]_vars
@@ -321,6 +358,14 @@ AckOnlyCovered ==
      hist[x].acked => \/ Covered(hist[x].reqs, x)
                       \/ D14_SingleTooLargeAborts /\ cs.split
                            /\ \E id \in Range(Payload(cs.batches[x])) : Rejects(cs.pats[x], {id})
+
+\* the routing a sink sees next to an event is that event's own (its value, or the default when it has none):
+\* it does not depend on what an earlier batch left in the worker
+RoutingOwn ==
+  \A x \in DOMAIN reqs : ParseOK(reqs[x].body) =>
+     \A y \in DOMAIN Routing(reqs[x].body) :
+        LET pr == Routing(reqs[x].body)[y] IN
+          \A z \in DOMAIN Cur : Cur[z].id = pr[1] => pr[2] = OwnRoute(Cur[z])
 
 \* a batch is given up only after Retry + 2 attempts that all failed, and only a failing batch is given up
 GiveUpOnlyAfterRetries ==
